@@ -72,7 +72,7 @@ path segments contain no '/', whose user name contains no ':' and whose host doe
 itself parsed, too. -/
 open AdaVerif.Model AdaVerif.Lemmas in
 theorem parsed_objects_hold_invariant_records (idna : Idna) (input : Bytes) (hid : ∀ d, HP.IdnaAt idna d)
-    (hclean : HS.bracketClean (ParseSpecial.schemeSpecial input) false (ParseSpecial.hostStart input) = true) :
+    (hclean : AdaVerif.Lemmas.BR.bracketOk (ParseSpecial.schemeSpecial input) (ParseSpecial.hostStart input) = true) :
     (∀ r, ParseSpecial.parseNoBase idna input = .ok r →
       ∃ u, r = UR.recOf u ∧ RecInv u = true ∧ PP.NoSlash u.path ∧ PAB.CredHostOk u) ∧
     (∀ a, ParseAgg.parseNoBaseA idna input = some a →
